@@ -64,6 +64,10 @@ func c15Build(c c15Case, now time.Time) *w.State {
 		n := w.MkNode(name, lbl)
 		if nd.Tainted {
 			n.Spec.Taints = []corev1.Taint{{Key: "dedicated", Value: "x", Effect: corev1.TaintEffectNoSchedule}}
+			if nd.Zone == "b" {
+				// a cordoned node that also carries the dedicated taint: a tolerated taint listed before the untolerated one
+				n.Spec.Taints = []corev1.Taint{{Key: "node.kubernetes.io/unschedulable", Effect: corev1.TaintEffectNoSchedule}, {Key: "dedicated", Value: "x", Effect: corev1.TaintEffectNoSchedule}}
+			}
 		} else {
 			elig++
 		}
